@@ -10,15 +10,15 @@ fn fwd(op: &Op, _ctx: &dyn Context, operands: &mut dyn CoordinateSet) -> usize {
     let x_0 = op.params.x(0);
     let y_0 = op.params.y(0);
     let lat_0 = op.params.lat(0);
-    let lon_0 = op.params.lon(0);
+    let lon_0 = op.params.lon(0).to_radians();
 
     let mut successes = 0_usize;
     for i in 0..operands.len() {
         let (lon, lat) = operands.xy(i);
 
-        let easting = (lon - lon_0) * k_0 * a - x_0;
+        let easting = (lon - lon_0) * k_0 * a + x_0;
         let isometric = ellps.latitude_geographic_to_isometric(lat + lat_0);
-        let northing = a * k_0 * isometric - y_0;
+        let northing = a * k_0 * isometric + y_0;
 
         operands.set_xy(i, easting, northing);
         successes += 1;
@@ -36,18 +36,18 @@ fn inv(op: &Op, _ctx: &dyn Context, operands: &mut dyn CoordinateSet) -> usize {
     let x_0 = op.params.x(0);
     let y_0 = op.params.y(0);
     let lat_0 = op.params.lat(0);
-    let lon_0 = op.params.lon(0);
+    let lon_0 = op.params.lon(0).to_radians();
 
     let mut successes = 0_usize;
     for i in 0..operands.len() {
         let (mut x, mut y) = operands.xy(i);
 
         // Easting -> Longitude
-        x += x_0;
-        let lon = x / (a * k_0) - lon_0;
+        x -= x_0;
+        let lon = x / (a * k_0) + lon_0;
 
         // Northing -> Latitude
-        y += y_0;
+        y -= y_0;
         let psi = y / (a * k_0);
         let lat = ellps.latitude_isometric_to_geographic(psi) - lat_0;
         operands.set_xy(i, lon, lat);
